@@ -3,6 +3,7 @@ CONSTANTS
   NCalls = 3
   Keys <- Keys3
   Full = TRUE
+  Big = TRUE
   MaxSteps = 14
   Subs <- SubsAll
   MaxNote = 10
